@@ -4,9 +4,12 @@ import (
 	"context"
 	"errors"
 	"fmt"
+	"runtime"
 	"sync"
+	"sync/atomic"
 	"testing"
 	"testing/synctest"
+	"time"
 
 	"github.com/bradenaw/juniper/stream"
 	"pgregory.net/rapid"
@@ -35,11 +38,16 @@ type Plan struct {
 	Buf     int    `json:"buf"`
 	Senders int    `json:"senders"`
 	Steps   []Step `json:"steps"`
+	// Deadlines: the contexts end by deadline instead of by cancel: -1 is a deadline in the past, context
+	// k > 0 has its deadline k fake hours after the start, and the step "cancel k" lets the (fake) clock run
+	// to that moment - which also ends every context with a smaller number.
+	Deadlines bool `json:"deadlines,omitempty"`
 }
 
 func genPlan(t *rapid.T) Plan {
 	p := Plan{Buf: rapid.SampledFrom([]int{0, 1, 2, 5}).Draw(t, "buf"), Senders: rapid.IntRange(1, 3).Draw(t, "senders")}
 	racy := rapid.IntRange(0, 2).Draw(t, "racy") > 0
+	p.Deadlines = rapid.IntRange(0, 2).Draw(t, "deadlines") == 0
 	n := rapid.IntRange(1, 24).Draw(t, "n")
 	nctx := 0
 	for i := 0; i < n; i++ {
@@ -77,6 +85,10 @@ func genPlan(t *rapid.T) Plan {
 			case 1, 2:
 				nctx++
 				s.Ctx = nctx
+			case 3:
+				if nctx > 0 { // a context that an earlier call used too (and that may have ended since)
+					s.Ctx = rapid.IntRange(1, nctx).Draw(t, "reuse")
+				}
 			}
 		}
 		p.Steps = append(p.Steps, s)
@@ -94,9 +106,20 @@ type opRec struct {
 	ok        bool  // trysend result
 	err       error
 	got       int // next result
+	ctxLive   bool // the call's own context had not ended when the call returned
+}
+
+func deadlineOf(c context.Context) time.Time {
+	d, _ := c.Deadline()
+	return d
+}
+
+func isCtxErr(err error) bool {
+	return errors.Is(err, context.Canceled) || errors.Is(err, context.DeadlineExceeded)
 }
 
 type world struct {
+	t0       time.Time
 	p        Plan
 	mu       sync.Mutex
 	ops      []*opRec
@@ -109,6 +132,10 @@ func (w *world) ctxFor(id int) context.Context {
 	switch {
 	case id == 0:
 		return context.Background()
+	case id == -1 && w.p.Deadlines:
+		c, cancel := context.WithDeadline(context.Background(), w.t0.Add(-time.Second))
+		_ = cancel
+		return c
 	case id == -1:
 		c, cancel := context.WithCancel(context.Background())
 		cancel()
@@ -117,6 +144,14 @@ func (w *world) ctxFor(id int) context.Context {
 	w.mu.Lock()
 	defer w.mu.Unlock()
 	if c, ok := w.ctxs[id]; ok {
+		return c
+	}
+	if w.p.Deadlines {
+		c, cancel := context.WithDeadline(context.Background(), w.t0.Add(time.Duration(id)*time.Hour))
+		w.ctxs[id], w.cancels[id] = c, cancel
+		if c.Err() != nil && w.cancelAt[id] == 0 {
+			w.cancelAt[id] = sk.Tick() // born after its deadline
+		}
 		return c
 	}
 	c, cancel := context.WithCancel(context.Background())
@@ -151,7 +186,7 @@ func run(p Plan) (out vk.Outcome, verr error) {
 }
 
 func script(p Plan, out *vk.Outcome) error {
-	w := &world{p: p, ctxs: map[int]context.Context{}, cancels: map[int]context.CancelFunc{}, cancelAt: map[int]int64{}}
+	w := &world{t0: time.Now(), p: p, ctxs: map[int]context.Context{}, cancels: map[int]context.CancelFunc{}, cancelAt: map[int]int64{}}
 	sender, receiver := stream.Pipe[int](p.Buf)
 	closeErr := sk.NewSentinel("close-error")
 	nActors := p.Senders + 2 // senders, closer, receiver
@@ -192,8 +227,9 @@ func script(p Plan, out *vk.Outcome) error {
 				case "rclose":
 					receiver.Close()
 				}
+				live := ctx.Err() == nil
 				w.mu.Lock()
-				r.err, r.ok, r.got = err, ok, got
+				r.err, r.ok, r.got, r.ctxLive = err, ok, got, live
 				r.ret = sk.Tick()
 				w.mu.Unlock()
 			}
@@ -363,6 +399,20 @@ func script(p Plan, out *vk.Outcome) error {
 			}
 			dispatch(i, s)
 		case "cancel":
+			if p.Deadlines {
+				// let the clock run to that context's deadline (everything else is at rest while it does)
+				if d := time.Until(w.t0.Add(time.Duration(s.Ctx) * time.Hour)); d > 0 {
+					time.Sleep(d)
+				}
+				w.mu.Lock()
+				for id, c := range w.ctxs {
+					if id <= s.Ctx && w.cancelAt[id] == 0 && !deadlineOf(c).After(time.Now()) {
+						w.cancelAt[id] = sk.Tick()
+					}
+				}
+				w.mu.Unlock()
+				break
+			}
 			w.mu.Lock()
 			cancel := w.cancels[s.Ctx]
 			if cancel != nil && w.cancelAt[s.Ctx] == 0 {
@@ -474,8 +524,8 @@ func script(p Plan, out *vk.Outcome) error {
 			}
 			// validity of a failing Next
 			switch {
-			case errors.Is(r.err, context.Canceled):
-				if r.ctx == 0 {
+			case isCtxErr(r.err):
+				if r.ctx == 0 || r.ctxLive {
 					return vk.Violf("invalid-result", "Next with a live context returned %v", r.err)
 				}
 			case r.err == stream.End:
@@ -511,8 +561,8 @@ func script(p Plan, out *vk.Outcome) error {
 				continue
 			}
 			switch {
-			case errors.Is(r.err, context.Canceled):
-				if r.ctx == 0 {
+			case isCtxErr(r.err):
+				if r.ctx == 0 || r.ctxLive {
 					return vk.Violf("invalid-result", "%s with a live context returned %v", r.op, r.err)
 				}
 			case r.err == stream.ErrClosedPipe:
@@ -593,4 +643,114 @@ func runReps(p Plan) (vk.Outcome, error) {
 func TestPipe(t *testing.T) {
 	theT = t
 	vk.Run(t, suite, "pipe", 3000, genPlan, runReps)
+}
+
+// ---------------------------------------------------------------- storm: last Send + Close racing a reader, real goroutines
+//
+// The scripted plans above decide the order in which calls START; what happens inside two calls that
+// run at the same time is up to the scheduler, and a window of a few instructions is hit about once in
+// 10^4-10^5 tries. This kind makes those tries: many short-lived pipes, one or two producers that send
+// a few values and close, and a consumer that reads to the end - blocking, or polling with a context
+// that has already ended (every such call must either hand out a value or cost nothing). Oracle: the
+// consumer gets every value whose Send returned nil, per sender in order, before it is told the end.
+
+type StormPlan struct {
+	Buf     int  `json:"buf"`
+	N       int  `json:"n"` // values per round
+	Rounds  int  `json:"rounds"`
+	Poll    bool `json:"poll"`    // consumer polls with an ended context instead of blocking
+	Spin    int  `json:"spin"`    // producer: busy iterations between its last Send and Close, swept 0..Spin over the rounds
+	CloseBy int  `json:"closeby"` // 0: the producer closes; 1: a second goroutine closes once the producer is done
+}
+
+func genStorm(t *rapid.T) StormPlan {
+	return StormPlan{Buf: rapid.SampledFrom([]int{1, 1, 2, 4, 0}).Draw(t, "buf"), N: rapid.IntRange(1, 4).Draw(t, "n"),
+		Rounds: rapid.IntRange(500, 3000).Draw(t, "rounds"), Poll: rapid.Bool().Draw(t, "poll"),
+		Spin: rapid.SampledFrom([]int{0, 0, 20, 200}).Draw(t, "spin"), CloseBy: rapid.IntRange(0, 1).Draw(t, "closeby")}
+}
+
+var spinSink atomic.Int64
+
+func runStorm(p StormPlan) (vk.Outcome, error) {
+	var out vk.Outcome
+	ended, cancel := context.WithCancel(context.Background())
+	cancel()
+	rounds := p.Rounds
+	for round := 0; round < rounds; round++ {
+		sender, receiver := stream.Pipe[int](p.Buf)
+		spin := 0
+		if p.Spin > 0 {
+			spin = round % (p.Spin + 1)
+		}
+		var sentOK atomic.Int32
+		produced := make(chan struct{})
+		go func() {
+			for i := 0; i < p.N; i++ {
+				if sender.Send(context.Background(), i) == nil {
+					sentOK.Add(1)
+				}
+			}
+			for k := 0; k < spin; k++ {
+				spinSink.Add(1)
+			}
+			if p.CloseBy == 0 {
+				sender.Close(nil)
+			}
+			close(produced)
+		}()
+		if p.CloseBy == 1 {
+			go func() { <-produced; sender.Close(nil) }()
+		}
+		next, polls := 0, 0
+		var verr error
+		for {
+			ctx := context.Background()
+			if p.Poll {
+				ctx = ended
+			}
+			v, err := receiver.Next(ctx)
+			if err == nil {
+				if v != next {
+					verr = vk.Violf("fifo", "round %d: received %d, expected %d", round, v, next)
+					break
+				}
+				next++
+				continue
+			}
+			if p.Poll && err == context.Canceled {
+				polls++
+				if polls%64 == 0 {
+					runtime.Gosched()
+				}
+				continue
+			}
+			if err != stream.End {
+				verr = vk.Violf("invalid-result", "round %d: Next returned %v", round, err)
+				break
+			}
+			// told the end: Close(nil) has been called, which the producer does only after all its Sends returned
+			<-produced
+			if int(sentOK.Load()) != next {
+				verr = vk.Violf("lost-value", "round %d: the receiver was told the end after %d values although %d Sends had returned nil before Close was called (buffer %d, poll=%v)",
+					round, next, sentOK.Load(), p.Buf, p.Poll)
+			}
+			break
+		}
+		receiver.Close()
+		<-produced
+		if verr != nil {
+			return out, verr
+		}
+	}
+	out.Execs = rounds
+	out.NonTrivial = true
+	out.Label(fmt.Sprintf("storm-buf=%d", p.Buf))
+	if p.Poll {
+		out.Label("storm-polling-consumer")
+	}
+	return out, nil
+}
+
+func TestPipeStorm(t *testing.T) {
+	vk.Run(t, suite, "pipe-storm", 200, genStorm, runStorm)
 }
